@@ -500,6 +500,7 @@ type FuncSpec struct {
 	Float    string // "real" | "fp"
 	Requires []Clause
 	Ensures  []Clause
+	Assumes  []Clause // postconditions callers may use that are NOT verified on the body (reported as assumptions)
 	Modifies []string // paths; "nothing"
 	Loops    map[string]*LoopSpec
 	Inline   []string // callees to inline even if they have contracts
@@ -580,7 +581,7 @@ func (ss *SpecSet) LoadSpecFile(path string, pkgPath string) error {
 
 var clauseKW = map[string]bool{"arith": true, "float": true, "requires": true, "ensures": true, "modifies": true,
 	"loop": true, "invariant": true, "decreases": true, "inline": true, "pure": true, "trusted": true, "opt": true,
-	"let": true, "assume": true, "prove": true, "vars": true, "ghost": true, "calls": true, "usespec": true,
+	"let": true, "assume": true, "assumes": true, "prove": true, "vars": true, "ghost": true, "calls": true, "usespec": true,
 	"guarded": true, "initonly": true, "confined": true, "channel": true, "initfuncs": true, "conffuncs": true, "entry": true, "heldfuncs": true, "balanceonly": true}
 var topKW = map[string]bool{"func": true, "spec": true, "pred": true, "lemma": true, "package": true, "uninterp": true, "lockclass": true}
 
@@ -780,6 +781,13 @@ func (ss *SpecSet) parseLines(lines []string, pkgPath, file string) error {
 					return err
 				}
 				cur.Ensures = append(cur.Ensures, c)
+				curLoop = nil
+			case "assumes":
+				c, err := mkClause(it.rest, it.ln)
+				if err != nil {
+					return err
+				}
+				cur.Assumes = append(cur.Assumes, c)
 				curLoop = nil
 			case "calls":
 				c, err := mkClause(it.rest, it.ln)
